@@ -3,6 +3,10 @@
 import json
 TX_NOTE = "Trusted: SimNet (stream-level model of one QUIC connection, semantics in DESIGN.md 2.4) instead of quic-go; the app shell around the engines is a stub (sender closes with code 0 on return, receiver exits without closing); the go/ast yield generator; testing/synctest; one fake clock for both nodes."
 checks = {
+ "C07": dict(level="exploration", design="3/C07",
+   text="The real RecvManifestMultiStream runs against a scripted hostile sender over the simulated network: framing is well-formed, but manifest.root, directory and file rel_path, item id or FileBegin.rel_path carry escape patterns (parent references, absolute paths into the sandbox, smuggled separators, NUL, backslashes, the metadata directory), in both root-dir modes, resume on and off, under seeded segmentation and schedules. The output directory sits in a per-run sandbox with decoys; oracle: the snapshot of everything outside the output directory is unchanged and no logged creating/writing/renaming/removing operation of the receiver resolves outside it.",
+   note="Hostile strings are a fixed pool (ordinary seeded generation); the simulator contributes the peer, the sandbox accounting through the file-system interposition layer and the schedule. SimNet instead of quic-go; Unix path semantics only.",
+   technique="deterministic simulation with a scripted byzantine peer; file-system interposition log and sandbox snapshot as oracle"),
  "C04": dict(level="fault_enumeration", design="3/C04",
    text="Histories of 1-3 interrupted runs (receiver process killed at a crash point = any file-system or network operation of that process, optionally tearing the write in flight; sender killed; abrupt loss; close; cancel) followed by a healthy resumed run into the same directory, all under seeded schedules in the simulator. Oracle: the resumed run succeeds on both sides, the tree is identical to the source, and the first FileResumeInfo per file advertises at least the chunks marked in the sidecar found after the kill. Kill positions are drawn per history; the thorough tier additionally kills the receiver at every file-system crash point of selected schedules.",
    note=TX_NOTE + " Crash model: kill -9 of one process (memory lost, completed system calls durable, a write in flight may be torn, rename atomic); no power-loss reordering, since the code never syncs and the property speaks of killed processes.",
